@@ -587,7 +587,9 @@ class Macros:
         self.template.cook_check()
 
         result = []
-        for name in self.template.__dict__:
+        # (a snapshot: another thread that compiles the template adds
+        # entry points while we look)
+        for name in list(self.template.__dict__):
             if name.startswith('_render_'):
                 result.append(name[8:])
         return result
